@@ -28,7 +28,7 @@ def corpus():
                    "adv 250000000 ; pu ; adv 250000000 ; pu ; adv 250000000 ; pu ; wp ; wa 0 ; q"),
         # a parked caller is answered by the healing round, never before delivery
         parse_line(PRE % (64, 1, 0, 0) + " ; R 0 1 rel=1 dur=0 ; netm ; w 0 1 10 11 ; w 0 2 10 22 ; w 0 1 10 33 ; dr 0 ; "
-                   "dl 1 ; du 0 ; wa 0 ; t 0 0 ; adv 250000000 ; pu ; wp ; t 0 0 ; wa 0 ; t 0 0 ; q"),
+                   "dl 1 ; du 0 ; wa 0 ; t 0 0 ; adv 250000000 ; pu ; adv 250000000 ; pu ; wp ; t 0 0 ; wa 0 ; t 0 0 ; q"),
     ]
 
 
